@@ -6,7 +6,7 @@ from fw import g_bool, g_list, g_nats, g_opt, g_str
 
 UNIT = 'zope.testrunner.layer.UnitTests'
 HOUT = {'ok': 'HOk', 'raise': 'HRaise', 'notimpl': 'HNotImpl', 'raise_unhashable': 'HRaise'}
-PO = {'ok': 'Pok', 'fail': 'Pfail', 'error': 'Perr', 'skip': 'Pskip', 'exit': 'Perr', 'raise': 'Perr', 'die': 'Pok', 'error_unhashable': 'Perr'}
+PO = {'ok': 'Pok', 'fail': 'Pfail', 'error': 'Perr', 'skip': 'Pskip', 'exit': 'Perr', 'raise': 'Perr', 'die': 'Pok', 'error_unhashable': 'Perr', 'kbd': 'Pok'}
 
 
 def po(x):
@@ -166,7 +166,7 @@ def gen_layers(rng, n, p_hook=0.8, faults=True):
             hooks['testSetUp'] = ['ok']
         if rng.random() < 0.6:
             hooks['testTearDown'] = ['ok']
-        layers.append({'name': names[i], 'bases': bases, 'kind': rng.choice(['class', 'instance']), 'hooks': hooks})
+        layers.append({'name': names[i], 'bases': bases, 'kind': rng.choice(['class', 'class', 'instance', 'instance', 'falsy']), 'hooks': hooks})
     return layers
 
 
